@@ -445,6 +445,54 @@ func (r *EngineRunner) Exec(f []string) (res string) {
 	case "pathstyle":
 		r.pathStyle = atoi(f[2])
 		return ""
+	case "zerotail": // E zerotail <bytes>: (database closed) the last <bytes> bytes of the newest data file are overwritten with zeros
+		if r.db != nil {
+			return "skip"
+		}
+		ents, _ := os.ReadDir(r.dir())
+		last := ""
+		for _, e := range ents {
+			if strings.HasSuffix(e.Name(), datafile.DataFileSuffix) {
+				last = e.Name() // ReadDir sorts by name: ids ascend
+			}
+		}
+		n := int64(atoi(f[2]))
+		st, err := os.Stat(filepath.Join(r.dir(), last))
+		if last == "" || err != nil || n <= 0 || n > st.Size() {
+			return "skip"
+		}
+		fh, err := os.OpenFile(filepath.Join(r.dir(), last), os.O_WRONLY, 0)
+		if err != nil {
+			return "skip"
+		}
+		_, _ = fh.WriteAt(make([]byte, n), st.Size()-n)
+		_ = fh.Close()
+		r.ref.crashed = true // what the next Open exposes is judged as after a crash: the zeroed records are gone, nothing else
+		return fmt.Sprintf("ok %d", st.Size()-n)
+	case "linkfile": // E linkfile <n>: (database closed) an older data file is moved to another directory and linked back
+		if r.db != nil {
+			return ""
+		}
+		ents, _ := os.ReadDir(r.dir())
+		var names []string
+		for _, e := range ents {
+			if strings.HasSuffix(e.Name(), datafile.DataFileSuffix) && e.Type().IsRegular() {
+				names = append(names, e.Name())
+			}
+		}
+		sort.Strings(names)
+		if len(names) < 2 {
+			return ""
+		}
+		victim := names[atoi(f[2])%(len(names)-1)] // never the newest file
+		cold := filepath.Join(r.Root, "cold-"+r.cur)
+		if err := os.MkdirAll(cold, 0755); err != nil {
+			return ""
+		}
+		if err := os.Rename(filepath.Join(r.dir(), victim), filepath.Join(cold, victim)); err == nil {
+			_ = os.Symlink(filepath.Join(cold, victim), filepath.Join(r.dir(), victim))
+		}
+		return ""
 	case "linkdir": // the current logical directory is a symbolic link to the real directory (before its first Open)
 		p := r.dir()
 		if _, err := os.Lstat(p); err == nil {
@@ -1475,7 +1523,7 @@ func (r *EngineRunner) listing() string {
 			if e.Name() == datafile.FileLockSuffix {
 				continue
 			}
-			st, err := e.Info()
+			st, err := os.Stat(filepath.Join(d.p, e.Name())) // through a symbolic link: the file it names
 			if err != nil {
 				continue
 			}
